@@ -298,7 +298,8 @@ class _FilesystemDataSource(DataSource):
                     # Filter down to files that begin with file_prefix
                     if entry.name.startswith(file_prefix):
                         entry_name = unquote(entry.name)
-                        if entry_name.endswith(".link"):
+                        # (directories - e.g. a function whose version ends in ".link" - keep their name)
+                        if entry_name.endswith(".link") and not entry.is_dir():
                             entry_name = entry_name[
                                 0:-5
                             ]  # strip .link off end of string
